@@ -1,11 +1,13 @@
 """C16 - line parsers keep every field in its column and never mis-align."""
 FUNCTIONS = ['parse_ob_line', 'parse_ob_csv_line', 'generic_line_parser']
+FRAME_ONLY = ['parse_ob_line_vw']       # assumed function symbol of the dispatcher's contract: its frame is checked syntactically
 LEVEL = 'proof'
 EXPLANATION = ('contracts over opaque strings with the str / csv library laws as named axioms: parse_ob_line returns exactly the fields '
                'of every rendered tab-separated line (for all field lists without delimiter / line break, empty fields anywhere, every '
                'terminator); parse_ob_csv_line returns the csv reader\'s first record unmodified; generic_line_parser dispatches each '
-               'supported data source to its parser and rejects unknown sources.  The VW parser and the namespace-map reader are checked '
-               'by executable contract only (bounded); the field-count rule is the loop contract of C08')
+               'supported data source to its parser and rejects unknown sources.  The VW parser (whose result the dispatcher\'s contract treats as a function of '
+               'line, namespace map and header: its frame - no module-level mutable state, object identity, RNG, clock, files - is a '
+               'syntactic obligation) and the namespace-map reader are checked by executable contract only (bounded); the field-count rule is the loop contract of C08')
 ASSUMPTIONS = ['str laws (cross-checked natively on every run): split(join(F, d), d) == F for d-free fields; (p + terminator).rstrip("\\r\\n") == p '
                'for p without line breaks; p + "" == p', 'csv.reader implements the csv dialect (round trip with csv.writer is cross-checked natively)',
                'VW semantics as implemented: tokens joined by "-", the first two characters of the joined value removed (the statement can '
